@@ -257,3 +257,41 @@ Section Sufficient.
              (bins_linked_off_integers A HA) (bins_linked_off_integers B HB) HfAB HfBA Ht).
   Qed.
 End Sufficient.
+
+(** ** the two named hypotheses can be checked by running the model *)
+Section Checks.
+  Context {T : Type} {O : Ops T}.
+  Variable rm : @room T.
+  Variable tm : @timing T.
+
+  Definition bins_check (pos : @vec T) : bool :=
+    forallb (fun k => if nthb (room_point_vis rm pos) k
+                      then room_recv_bin rm tm pos k =? S (room_src_bin rm tm pos k) else true)
+            (seq 0 (rm_np rm)).
+  Lemma bins_check_ok pos : bins_check pos = true -> room_bins_linked rm tm pos.
+  Proof.
+    intros H k Hk Hv. unfold bins_check in H. rewrite forallb_forall in H.
+    assert (Hin : In k (seq 0 (rm_np rm))) by (apply in_seq; lia).
+    specialize (H k Hin). cbv beta in H. rewrite Hv in H. now apply Nat.eqb_eq.
+  Qed.
+
+  Definition fits_check (src rcv : @vec T) (K b : nat) : bool :=
+    let E := room_hist rm tm src K in
+    let N := n_samples tm in
+    forallb (fun k => if nthb (room_point_vis rm rcv) k
+                      then let g := room_recv_bin rm tm rcv k in
+                           (g <? N) && forallb (fun u => teqb (get4 E k (room_recv_slot rm rcv k) b u) 0%T)
+                                               (seq (N - g) g)
+                      else true)
+            (seq 0 (rm_np rm)).
+  Lemma fits_check_ok src rcv K b : (forall x y : T, teqb x y = true -> x = y) ->
+    fits_check src rcv K b = true -> room_recv_fits rm tm src rcv K b.
+  Proof.
+    intros Heq H k Hk Hv. unfold fits_check in H. cbv zeta in H. rewrite forallb_forall in H.
+    assert (Hin : In k (seq 0 (rm_np rm))) by (apply in_seq; lia).
+    specialize (H k Hin). cbv beta in H. rewrite Hv in H. apply andb_true_iff in H.
+    destruct H as [Hg Hz]. apply Nat.ltb_lt in Hg. split; [exact Hg|].
+    intros u H1 H2. rewrite forallb_forall in Hz. apply Heq. apply Hz. apply in_seq.
+    fold (room_recv_bin rm tm rcv k) in *. lia.
+  Qed.
+End Checks.
